@@ -533,3 +533,35 @@ def attr_memos(ctx):
     does not validate) must reset the cache."""
     from .common_cache import attr_memos as run
     run(ctx, 'scripts', [['Script']], 'Script', 'the cached raw script no longer matches the commands')
+
+
+@PROP.obligation('C19.encode-total', canaries=[
+    mut.replace_stmt('scripts', 'encode_num', 'abs_num = abs(num)', "abs_num = abs(num)\nif abs_num > 2147483647:\n    raise ScriptError('overflow')", 'arithmetic results above 4 bytes refused'),
+])
+def encode_total(ctx):
+    """scripts.encode_num is total: the 4-byte limit of script numbers applies to OPERANDS (checked when they are decoded), results are
+    pushed at any size (2147483647 1ADD leaves the 5-byte 0000008000 and is valid). encode_num therefore contains no raise."""
+    q = 'scripts:encode_num'
+    fn = ctx.repo.func(q)
+    raises = [n for n in ast.walk(fn) if isinstance(n, ast.Raise)]
+    ctx.saw('encode_num: %d raise statements' % len(raises))
+    for r in raises:
+        ctx.violate(q, 'encode_num raises (`%s`): an arithmetic result is refused' % norm(r)[:80], r, 'scripts whose result needs 5 bytes, such as 2147483647 1ADD 2147483648 EQUAL, are reported invalid')
+    rets = [n for n in ast.walk(fn) if isinstance(n, ast.Return)]
+    ctx.floor(len(rets), 2, 'return statements in encode_num')
+
+
+@PROP.obligation('C19.notif-cast', canaries=[
+    mut.replace_stmt('scripts', 'Stack.op_notif', 'element = self.pop()', 'self.op_not()\nreturn self.op_if(commands)', 'NOTIF implemented with the numeric NOT'),
+])
+def notif_cast(ctx):
+    """Stack.op_notif inverts the truth value of ANY byte vector and continues with op_if; it must not go through the numeric opcodes
+    (op_not / is_arithmetic refuse operands longer than 4 bytes and compare raw bytes), which would abort on a hash160 / public key
+    condition."""
+    q = 'scripts:Stack.op_notif'
+    fn = ctx.repo.func(q)
+    callees = sorted(set(norm(c.func) for c in ast.walk(fn) if isinstance(c, ast.Call)))
+    ctx.saw('op_notif calls %s' % callees)
+    numeric = [c for c in callees if c.split('.')[-1] in ('op_not', 'op_0notequal', 'is_arithmetic', 'pop_as_number', 'op_numequal')]
+    ctx.require(not numeric, q, 'op_notif goes through the numeric opcode %s' % numeric, fn, 'a condition longer than 4 bytes aborts the script; non-canonical false values take the wrong branch')
+    ctx.require('self.op_if' in callees and 'self.pop' in callees, q, 'op_notif no longer pops the condition and continues with op_if', fn)
